@@ -62,6 +62,15 @@ def run(tier, seed):
             cases.append({"id": i, "field": f, "hasher": h, "ext": e, "ln": s["ln"], "lb": s["lb"], "fold": s["fold"], "rem": s["rem"],
                           "q": q, "poly": "random", "strategy": st, "param": param, "dup": False, "seed": seed + i})
             i += 1
+    # a random function folded honestly violates the remainder relation at (almost surely) every point of the last layer, so it is rejected
+    # whatever the number of queries: 1, 2, 3, 5, 6, 7 queries - every queried position must be compared with the remainder, the last one too
+    for s in sched[::2]:
+        for q in (1, 2, 3, 5, 6, 7):
+            f, h, e = c15.COMBOS[i % len(c15.COMBOS)]
+            d = 2 ** (s["ln"] + s["lb"])
+            cases.append({"id": i, "field": f, "hasher": h, "ext": e, "ln": s["ln"], "lb": s["lb"], "fold": s["fold"], "rem": s["rem"],
+                          "q": min(q, d - 1), "poly": "random", "strategy": "far", "param": 0, "dup": False, "seed": seed + i})
+            i += 1
     # the forged last layer on schedules where few rows of the last layer are opened (blowup 2 and 4, small remainders)
     small = [p for p in r.printed if p.get("kind") == "sched" and p["lb"] in (1, 2) and p["rem"] in (0, 1, 2) and p["layers"] >= 2 and p["ln"] + p["lb"] <= 9]
     for s in small[::2 if tier == "quick" else 1]:
@@ -146,7 +155,9 @@ def run(tier, seed):
         "exhaustive": False, "per_strategy": per, "rejected": rej, "skipped": skipped,
         "known_finding_occurrences": v.n_known, "new_violations": v.n_new, "notes": v.notes[:5],
     }, time.time() - t0, violations=v.n_new,
-        assumptions=["false-accept probability of the non-adaptive strategies is below 2^-40 by the choice of 80 queries, blowup >= 4 and corruption of at least half of the domain",
+        assumptions=["false-accept probability of the non-adaptive strategies is below 2^-40 by the choice of 80 queries, blowup >= 4 and corruption of at least half of the domain; "
+                     "random functions are also run with 1..7 queries: honest folding of a random function breaks the remainder relation at every point of the last layer "
+                     "up to a chance of (number of positions) / (field size) < 2^-55",
                      "soundness is decided for the enumerated strategies, not for all provers; that a strategy cannot know a folding challenge before it commits to the layer is "
                      "checked as a dependency: replacing the commitment of layer k changes the k-th challenge the real verifier draws"])
     return rc
